@@ -356,6 +356,7 @@ class Evaluator:
                      cls: Optional[str] = None, closure: bool = False) -> List[Outcome]:
         st = state.copy() if state is not None else State()
         st.frames.append({k: v for k, v in st.frames[-1].items() if not k.startswith("__")} if closure else {})
+        fn = self._with_generator_joins_as_loops(fn)
         old_cls = self.cls
         if cls is not None:
             self.cls = cls
@@ -371,6 +372,28 @@ class Evaluator:
                 raise AnalysisError(f"break/continue escaped function {fn.name}")
             res.append(o)
         return res
+
+    def _with_generator_joins_as_loops(self, fn: ast.FunctionDef) -> ast.FunctionDef:
+        if not any(isinstance(n, (ast.GeneratorExp, ast.ListComp)) for n in ast.walk(fn)):
+            return fn
+        cache = self.__dict__.setdefault("_join_cache", {})
+        if id(fn) in cache:
+            return cache[id(fn)]
+
+        def is_gen_call(c: ast.Call) -> bool:
+            f = c.func
+            name = f.attr if isinstance(f, ast.Attribute) and isinstance(f.value, ast.Name) and f.value.id == "self" else \
+                f.id if isinstance(f, ast.Name) else None
+            if name is None:
+                return False
+            cands = [m for ci in self.repo.classes.values() if ci.module == self.module for n_, m in ci.methods.items() if n_ == name]
+            mf = self._module_function(name) if isinstance(f, ast.Name) else None
+            if mf is not None:
+                cands.append(mf)
+            return bool(cands) and all(any(isinstance(x, (ast.Yield, ast.YieldFrom)) for x in ast.walk(m)) for m in cands)
+        from .inline import joins_to_loops
+        cache[id(fn)] = joins_to_loops(fn, is_gen_call)
+        return cache[id(fn)]
 
     def _bind_params(self, fn: ast.FunctionDef, args: Dict[str, Term], st: State) -> None:
         defaults = param_defaults(fn)
@@ -644,7 +667,50 @@ class Evaluator:
             return exc[1].split(".")[-1]
         return None
 
+    def _generator_loop(self, node, st):
+        """for T in <generator function of the repository>(...): body  -> the generator's body with each `yield E` replaced by
+        `T = E; body` (run in the callee's frame layout: parameters bound, locals of the generator renamed)."""
+        if node.orelse or not isinstance(node.iter, ast.Call):
+            return None
+        try:
+            tgt = self._resolve_callee(node.iter, st)
+        except AnalysisError:
+            return None
+        if tgt is None:
+            return None
+        fn, cls_name, bound_self, kind = tgt
+        if not any(isinstance(x, (ast.Yield, ast.YieldFrom)) for x in ast.walk(fn)):
+            return None
+        from .inline import _Inliner, _Subst, expand_yields
+        inl = _Inliner({}, {})
+        self._gen_counter = getattr(self, "_gen_counter", 0) + 1
+        inl.counter = 1000 + self._gen_counter
+        is_method = bound_self is not None
+        b = inl.bind(fn, node.iter, is_method)
+        if b is None:
+            return None
+        prelude, mapping, rename, tag = b
+        stmts = expand_yields(fn, node.target, node.body, _Subst(mapping, rename))
+        if stmts is None:
+            return None
+        if is_method:
+            self_name = fn.args.args[0].arg
+            if self_name != "self" or st.env.get("self") != bound_self:
+                return None
+        for s_ in prelude:
+            ast.fix_missing_locations(s_)
+        old_cls = self.cls
+        if cls_name is not None:
+            self.cls = cls_name
+        try:
+            return self.exec_block(list(prelude) + stmts, st)
+        finally:
+            self.cls = old_cls
+
     def st_For(self, node, st):
+        g = self._generator_loop(node, st)
+        if g is not None:
+            return g
         it = self.eval(node.iter, st)
         items = None
         if it[0] in ("tuple", "list") and len(it) - 1 <= 16 and not any(isinstance(x, tuple) and x and x[0] == "starred" for x in it[1:]):
@@ -1175,10 +1241,26 @@ class Evaluator:
                         return c.methods[f.attr], c.name, SELF, "super"
             if isinstance(base, ast.Name) and self.repo.has_class(base.id) and base.id not in st.env:
                 ci = self.repo.cls(base.id)
+                if f.attr in ci.methods and f.attr not in self.opaque_methods \
+                        and any(norm(d) == "classmethod" for d in ci.methods[f.attr].decorator_list):
+                    # Class.factory(...): `cls` is the class
+                    return ci.methods[f.attr], base.id, glob(base.id), "classmethod"
                 if f.attr in ci.methods and (self.inline_static or base.id == self.cls) and f.attr not in self.opaque_methods:
                     fn = ci.methods[f.attr]
                     is_static = any(norm(d) == "staticmethod" for d in fn.decorator_list)
                     return fn, base.id, None if is_static else None, "static"
+            # obj.m(...) on some other object: when exactly one class of the module under evaluation defines a plain method
+            # m (and m is not part of an emission API), the call can only mean that method
+            if f.attr not in self.opaque_methods and f.attr not in self.effect_methods and not f.attr.startswith("__") \
+                    and not (isinstance(base, ast.Name) and (st.env.get(base.id) == SELF or base.id not in st.env)):
+                owners = [c for c in self.repo.classes.values() if c.module == self.module and f.attr in c.methods]
+                if len(owners) == 1 and not owners[0].methods[f.attr].decorator_list \
+                        and not any(isinstance(x, (ast.Yield, ast.YieldFrom)) for x in ast.walk(owners[0].methods[f.attr])) \
+                        and f.attr not in ("append", "extend", "insert", "pop", "remove", "get", "items", "keys", "values", "split",
+                                           "join", "strip", "lower", "upper", "replace", "startswith", "endswith", "format"):
+                    recv = self.eval(base, st)
+                    if recv[0] not in ("const", "global", "unknown"):
+                        return owners[0].methods[f.attr], owners[0].name, recv, "objmethod"
         if isinstance(f, ast.Name) and f.id not in st.env and f.id not in self.opaque_methods:
             fn = self._module_function(f.id)
             if fn is not None:
